@@ -170,6 +170,7 @@ func init() {
 				Bound: "one chunk stream (form 1/2/3 forked, id symbolic in 3..63 / 64..319 / 64..65599), 2 messages (thorough 2-3), later ones with header type 0/1/2/3 forked; timestamps and deltas 32 symbolic bits (extended timestamps are solver choices); payload 1-4 symbolic bytes"},
 			{Pkg: "rtmp", Func: "HarnessC02_Interleave", Labels: []string{"interleave"},
 				Bound: "Set Chunk Size with symbolic size in [1,2^31-1], two chunk streams (forms forked, ids symbolic and distinct), one message of 1-4 bytes each, all interleavings of their chunks"},
+			{Pkg: "rtmp", Func: "HarnessC02_Follow", Labels: []string{"follow"}, Bound: "one chunk stream, chunk size 1..3: a fmt-0 message of 1-3 bytes (1-3 chunks) followed by 1-2 messages starting with fmt 1/2/3 (fmt 3: delta inherited, after fmt 0 the timestamp), each again chunked; 16-bit timestamps and deltas"},
 			{Pkg: "rtmp", Func: "HarnessC02_Rescale", Labels: []string{"rescale"}, Bound: "chunk size symbolic 1..3, one message of 3-5 bytes on a chunk stream with symbolic id; after 0-2 of its chunks a second Set Chunk Size with symbolic size (itself chunked with the old size), then the rest of the message"},
 			{Pkg: "rtmp", Func: "HarnessC02_Reject", Labels: []string{"reject", "reject-librtmp-ok"},
 				Bound: "one rule violation per stream: fresh chunk stream starting with fmt 1/2/3; fmt 0 inside an unfinished message; length changed mid-message (other length 24 symbolic bits); plus the documented librtmp ping which must be accepted"},
@@ -200,7 +201,7 @@ func init() {
 		}, rtmpAssume...),
 		Harnesses: []harnessSpec{
 			{Pkg: "rtmp", Func: "HarnessC04_Concurrent", Race: true, Labels: []string{"concurrent"},
-				Bound: "1-2 (thorough 1-3) requests (connect and/or createStream with symbolic distinct ids), optionally pipelined with the answers in reverse order, optionally preceded by a stray response; 2 threads, all schedules; free and slow-write transport"},
+				Bound: "1-2 (thorough 1-3) requests (connect and/or createStream with symbolic distinct ids), optionally pipelined with the answers in reverse order, optionally preceded by a stray response; each answer sent as an AMF0 (type 20) or AMF3 (type 17) command message; optionally the transport breaks after the first of two requests (the second write fails, the first answer still arrives); 2 threads, all schedules; free and slow-write transport"},
 		},
 	})
 	reg(&propSpec{
